@@ -41,6 +41,123 @@ def mk_filter(op, name):
     return A.Enum(IR + "Operation", op, [A.Enum(IR + "FoldSpecificFieldKind", "Count"), A.Enum(IR + "Argument", "Variable", [vref])])
 
 
+def truncation_decision_table(C, R, cf, fcol, intr):
+    """r5: the expression that decides whether a fold may be cut off at its minimum size is abstractly evaluated on sample IR
+    with exactly one observer of the fold present at a time; with any observer present it must decide `no truncation`."""
+    from tfv.tast import pat_binds
+    R.rule("r5", "decision table of the truncation decision: None (no truncation) whenever anything observes the fold's elements or count; "
+                 "Some(min) when nothing does (controls: observers of *other* folds do not block it)")
+    site = [c for c in calls_in(cf["body"]) if c.get("callee") == fcol["path"]]
+    lets = [n for n in walk(cf["body"]) if n.get("k") == "let" and "init" in n and
+            any((c.get("callee") or "").endswith("get_min_fold_count_limit") for c in calls_in(n["init"]))]
+    if len(lets) != 1 or len(site) != 1:
+        R.fail("r5", "anchor", C.loc(cf["sp"]), "expected one binding initialised from get_min_fold_count_limit in compute_fold (found %d)" % len(lets))
+        return
+    init = lets[0]["init"]
+    bound = {b for n in walk(init) for key in ("pat",) if isinstance(n.get(key), dict) for b, _ in pat_binds(n[key])}
+    for n in walk(init):
+        if n.get("k") == "match":
+            for a in n["arms"]:
+                bound |= {b for b, _ in pat_binds(a["pat"])}
+        if n.get("k") == "closure":
+            for p in n["params"]:
+                bound |= {b for b, _ in pat_binds(p)}
+    free = {}
+    for n in walk(init):
+        if n.get("k") == "local" and n["bid"] not in bound:
+            free[n["bid"]] = (n["name"], C.S(n.get("ty")) or "")
+    roles = {}
+    for bid, (name, ty) in free.items():
+        if "IRFold" in ty:
+            roles["fold"] = bid
+        elif ty.endswith("IRQueryComponent") or "IRQueryComponent>" in ty:
+            roles["parent"] = bid
+        elif "QueryCarrier" in ty:
+            roles["carrier"] = bid
+        else:
+            R.fail("r5", "anchor:free-variable/%s" % name, C.loc(lets[0]["sp"]), "the truncation decision reads the local `%s: %s`, which the sample IR does not provide (fail closed)" % (name, ty))
+            return
+    if set(roles) != {"fold", "parent", "carrier"}:
+        R.fail("r5", "anchor:roles", C.loc(lets[0]["sp"]), "the truncation decision must read the fold, the parent component and the carrier (found %s)" % sorted(roles))
+        return
+
+    COUNT = lambda: A.Enum(IR + "FoldSpecificFieldKind", "Count")
+
+    def fsf(eid, root):
+        return A.Struct(IR + "FoldSpecificField", {"fold_eid": eid, "fold_root_vid": root, "kind": COUNT()})
+
+    def count_tag(eid, root):
+        return A.Enum(IR + "Argument", "Tag", [A.Enum(IR + "FieldRef", "FoldSpecificField", [fsf(eid, root)])])
+
+    def cf_(vid, name):
+        return A.Struct(IR + "ContextField", {"vertex_id": vid, "field_name": name, "field_type": A.Sym("ty")})
+
+    def comp(outputs=(), folds=()):
+        return A.Struct(IR + "IRQueryComponent", {"root": 0, "vertices": S.MapV([]), "edges": S.MapV([]),
+                                                  "folds": S.MapV(list(folds)), "outputs": S.MapV(list(outputs))})
+
+    def mkfold(eid, to_vid, component=None, fso=(), post=(), imported=()):
+        return A.Struct(IR + "IRFold", {"eid": eid, "from_vid": 1, "to_vid": to_vid, "edge_name": "e", "parameters": A.Sym("params"),
+                                        "component": component or comp(), "imported_tags": A.VecV(list(imported)),
+                                        "post_filters": A.VecV(list(post)), "fold_specific_outputs": S.MapV(list(fso))})
+
+    def vertex(vid, filters=()):
+        return A.Struct(IR + "IRVertex", {"vid": vid, "type_name": "T", "coerced_from_type": S.none(), "filters": A.VecV(list(filters))})
+
+    def lf(name):
+        return A.Struct(IR + "LocalField", {"field_name": name, "field_type": A.Sym("ty")})
+
+    THIS, OTHER = (7, 20), (8, 30)          # (eid, root vid) of the fold under test and of a sibling
+    own_filter = mk_filter("GreaterThanOrEqual", "v0")
+
+    def build(case):
+        nested = mkfold(9, 40, component=comp(outputs=[("deep", cf_(40, "x"))])) if case == "output in a nested fold" else None
+        nested_cnt = mkfold(9, 40, fso=[("deepcount", COUNT())]) if case == "count output of a nested fold" else None
+        inner_folds = [(9, f) for f in (nested, nested_cnt) if f is not None]
+        component = comp(outputs=[("o", cf_(20, "p"))] if case == "output inside the fold" else [], folds=inner_folds)
+        fold = mkfold(THIS[0], THIS[1], component=component, post=[own_filter],
+                      fso=[("cnt", COUNT())] if case == "count output" else [])
+        sib_imp = [A.Enum(IR + "FieldRef", "FoldSpecificField", [fsf(*THIS)])] if case == "count tag imported into a sibling fold" else \
+            [A.Enum(IR + "FieldRef", "FoldSpecificField", [fsf(*OTHER)]), A.Enum(IR + "FieldRef", "ContextField", [cf_(1, "q")])] if case == "control: sibling imports other tags" else []
+        sib_post = [A.Enum(IR + "Operation", "LessThan", [COUNT(), count_tag(*THIS)])] if case == "count tag in a sibling fold's count filter" else \
+            [A.Enum(IR + "Operation", "LessThan", [COUNT(), count_tag(*OTHER)])] if case == "control: sibling filters on another count tag" else []
+        sibling = mkfold(OTHER[0], OTHER[1], post=sib_post, imported=sib_imp)
+        vfilters = [A.Enum(IR + "Operation", "Equals", [lf("a"), count_tag(*THIS)])] if case == "count tag in a parent vertex filter" else \
+            [A.Enum(IR + "Operation", "Equals", [lf("a"), count_tag(*OTHER)])] if case == "control: parent filter on another count tag" else []
+        parent = A.Struct(IR + "IRQueryComponent", {"root": 1, "vertices": S.MapV([(1, vertex(1, vfilters))]), "edges": S.MapV([]),
+                                                    "folds": S.MapV([(THIS[0], fold), (OTHER[0], sibling)]), "outputs": S.MapV([])})
+        carrier = A.Struct(EXE + "QueryCarrier", {"query": S.some(A.Struct("trustfall_core::interpreter::InterpretedQuery",
+                                                                          {"arguments": S.MapV([("v0", fv_int(2))])}))})
+        return fold, parent, carrier
+    cases = {
+        "nothing observes the fold": True,
+        "output inside the fold": False, "output in a nested fold": False, "count output of a nested fold": False, "count output": False,
+        "count tag in a parent vertex filter": False, "count tag imported into a sibling fold": False,
+        "count tag in a sibling fold's count filter": False,
+        "control: sibling imports other tags": True, "control: sibling filters on another count tag": True,
+        "control: parent filter on another count tag": True,
+    }
+    for case, may_truncate in cases.items():
+        fold, parent, carrier = build(case)
+        env = {roles["fold"]: A.Cell(fold), roles["parent"]: A.Cell(parent), roles["carrier"]: A.Cell(carrier)}
+        try:
+            ip = A.Interp(C, intrinsics=intr, max_steps=200000)
+            res = A.deref(ip.ev(init, env))
+        except A.Unsupported as e:
+            R.fail("r5", "unanalysable/%s" % case, C.loc(lets[0]["sp"]), "abstract evaluation of the truncation decision failed: %s (fail closed)" % e)
+            continue
+        except A.PanicReached as e:
+            R.fail("r5", "panic/%s" % case, C.loc(lets[0]["sp"]), "the truncation decision panics: %s" % e.what)
+            continue
+        got = isinstance(res, A.Enum) and res.variant == "Some"
+        if may_truncate:
+            # not truncating here is always safe (only the optimisation is lost), so this is recorded, never an alarm
+            R.ok("r5", "control/%s" % case, {"truncates": got})
+        else:
+            R.check(not got, "r5", "decision/%s" % case, C.loc(lets[0]["sp"]),
+                    "with `%s` the engine still materialises only the minimum number of fold elements: that observer sees a truncated fold / a clamped count" % case)
+
+
 def run(ctx, R):
     C = ctx.core
     R.rule("r1", "the minimum-size (truncation) decision depends on every observer of the fold")
@@ -146,6 +263,8 @@ def run(ctx, R):
             R.check(pred(), "r1", "observer/%s" % what, C.loc(site[0]["sp"]),
                     "the decision to materialise only a minimum number of fold elements does not depend on `%s`: a query that "
                     "observes the fold this way sees truncated data (the decision reads: %s)" % (what, q))
+
+    truncation_decision_table(C, R, cf, fcol, intr)
 
     # ---------------- r3
     loops = []
